@@ -37,7 +37,7 @@ CLAIMED = {
                 "(NaN, +-Inf, 2^63/2^64) are listed findings. For 'all other elements of the same call are still "
                 "transferred': at each of the ~265 sites where a write is packed or posted (ncmpio_pack_xbuf, the iput/bput "
                 "entry points, driver slots) the function is explored once with the status NC_NOERR and once with NC_ERANGE; "
-                "the possible next calls / exits (with the constants stored on the way) must be the same.",
+                "the possible next calls / exits (with the constants stored on the way) must be the same. The fill substitution is followed to the external byte order: a user fill value copied into the staging word must go through put_ix_*, one copied straight into the external buffer must be byte-swapped in place (R8.prim). Flexible APIs: after a user buffer type is decoded, its element type reaches the conversion layer or a queued request only behind the text/numeric test (R10.echar; the converters assert that NC_ECHAR was ruled out).",
         "note": "Analysed build only (LP64, little endian, ERANGE_FILL). Same-type fast paths (memcpy/byte swap) are "
                 "not value-checked. 'Representable' is defined by the checker from the netCDF type table and IEEE-754.",
         "design_ref": "DESIGN.md section 3 / C09, rules R8, R10",
@@ -63,7 +63,7 @@ CLAIMED = {
                 "driver create / open gives the slot back and returns the error on every path, and close as well as abort "
                 "cancel pending requests before the file object is released. Not decided: communicators, info objects and file handles as resources, "
                 "leaks that need an allocation or MPI failure, the 16 functions over R3.leak's state budget (frozen list; "
-                "treated as capturing), isolation between files.",
+                "treated as capturing), isolation between files. Objects held in a member of a local structure (getbuf.base) are owned by the function like those held in a local pointer.",
         "note": "Single-threaded build. R3.leak assumes allocation and MPI calls succeed; four reports are discharged by "
                 "reasoned predicates whose side conditions are re-tested (DESIGN 10.5a). Found and fixed: F-C17-2..14.",
         "design_ref": "DESIGN.md section 3 / C17, rule R3 (clauses 1, 4, 5)",
@@ -126,7 +126,7 @@ CLAIMED = {
                 "error codes come in the documented order (NC_EPERM, NC_EINDEFINE, NC_ENOTVAR, NC_ECHAR, "
                 "NC_EINVALCOORDS, NC_EEDGE, NC_ESTRIDE ...), and each of the ~650 put/get wrappers runs id check, "
                 "sanity check, start/count check and the driver's data call in that order. The full product automaton "
-                "over call histories, and precedence among errors produced inside the driver, are not decided.",
+                "over call histories, and precedence among errors produced inside the driver, are not decided. Writability is derived from the NC_WRITE bit alone in every layer: each test of the open mode in the open functions is evaluated on mode words and may depend on no other bit (R4.rdonly). Driver mode functions do not change a mode bit on an exit that certainly fails (R11.layers, failing exits).",
         "note": "classic-format files; multi-variable APIs examined with nvars >= 1; MPI communication succeeds; "
                 "bit and error values are re-read from the macro table on every run.",
         "design_ref": "DESIGN.md section 3 / C14, rule R11",
@@ -196,7 +196,7 @@ CLAIMED = {
                 "under an overflow trap on headers with extreme begin / length values, performs no sum that leaves the signed "
                 "64-bit range. It "
                 "does not decide absence of undefined behaviour in general, typed access to byte-sliced buffers, or "
-                "resource proportionality; 7 oversized functions are outside the release analysis (frozen list).",
+                "resource proportionality; 7 oversized functions are outside the release analysis (frozen list). Every sprintf/strcpy/strcat of the library into a character array of constant size is bounded below the size of the array (format widths by C type, %s by the bound of its argument) (R9.msgbuf).",
         "note": "field identities from clang; LATER table: NC_var.len (dead), NC_var.begin (ncmpio_NC_check_voffs).",
         "design_ref": "DESIGN.md section 3 / C19, rule R9a",
     },
@@ -235,7 +235,7 @@ CLAIMED = {
                 "successful changing path; every cached name_len is the length of the stored name; the data-mode "
                 "in-place tests (NC_ENOTINDEFINE on rename / put_att / copy_att) compare a field the header size function "
                 "reads (name_len, xsz) with the value that replaces it. Hash arithmetic, id renumbering and value "
-                "conversion are not decided.",
+                "conversion are not decided. Name comparisons in the lookups are whole-string (R10.nameeq). NC_MAX_NAME holds for the NFC-normalised name: the name gate is evaluated with normalised lengths around the limit, and every dispatcher path that hands a user-supplied name to a name-storing driver slot has passed the gate (R8.normlen).",
         "note": "MPI calls and allocations succeed; object kinds identified by clang record identity.",
         "design_ref": "DESIGN.md section 3 / C07",
     },
@@ -350,7 +350,7 @@ CLAIMED = {
                 "file offset for every fill level of a 40-byte window (bounded); vsize from the file is recomputed "
                 "from the dimensions on every successful open path; begin_rec / begin_var are taken from the file's "
                 "own offsets (gaps honoured). Equality of all inquiry results and data with the encoded content is "
-                "NOT decided.",
+                "NOT decided. No field of the header object that the decoder derives is read (by it or the functions it hands the object to) before the write that derives it (R4.decodeorder).",
         "note": "The hint nc_header_read_chunk_size is inert in this snapshot (parsed into a local, never stored), so chunk "
                 "sizes other than the default are unreachable through the API; the rules are independent of the chunk size.",
         "design_ref": "DESIGN.md section 3 / C04, rules R7, R9a, R8.fetch",
@@ -373,7 +373,7 @@ CLAIMED = {
                 "file) is reached only with a positive count; a diff tool that reads numrecs from the headers compares the two "
                 "counts; record r of a variable is addressed at begin + r * (the file's record size) in the tools and the "
                 "library (7 sites). NOT decided: the validator's other semantic checks, ncmpidump/ncmpigen output, "
-                "tolerance arithmetic.",
+                "tolerance arithmetic. The tools' private header decoders obey the same derive-before-read order (R4.decodeorder); cdfdiff's per-variable comparison of dimension lengths lets the record dimension stand for the number of records (R10.reccount); ncmpidiff counts floating-point values as different only when their bit patterns differ (R10.bitequal).",
         "note": "Found and fixed: ncmpidiff had no NC_BYTE case in its three dispatches (F-C20-1..3); cdfdiff SIGFPE and "
                 "missing record-count comparison (F-C20-4, -5).",
         "design_ref": "DESIGN.md section 3 / C20",
@@ -396,7 +396,7 @@ CLAIMED = {
                 "no ordering comparison sets an unsigned value against a negative constant (driver, library and tools); a "
                 "pointer parameter the driver tests against NULL is not used unprotected where the NULL side of such a test can "
                 "reach. Equality of the final file with the default driver's and read-your-writes for all programs are NOT "
-                "decided.",
+                "decided. A failing log-file operation reaches the return value of every calling driver function (R1.logret); ncbbio_wait completes each named request once in the driver that owns it and attributes statuses by list position (R8.bbwait, bounded); flexible puts reach the log only behind the text/numeric test (R10.echar).",
         "note": "R8.shared and R8.flushbatch are bounded evaluations. Found and fixed: F-C12-1..3 (replayed in a tree configured "
                 "with --enable-burst-buffering). Observed, outside the property: in ncbbio_log_flush_core the per-request "
                 "status loop resets j to 0 in every iteration, so every put request of a batch is given stats[0].",
